@@ -156,12 +156,15 @@ def declareInteger (fixed : Bool) (lengthText rule : Str) (length : Range) : Out
     if hasLength then do
       let len ←
         if fixed then
-          if length.lowerLimit != length.upperLimit then .error .assertion
+          if length.lowerLimit != length.upperLimit then .error .iface
           else match length.upperLimit with
-            | none => .error .typeErr         -- "%d" % None
+            | none => .error .iface
             | some u => Range.parse ("1...".toList ++ intRepr u)
         else pure length
-      let lr ← createRangeFromLength len
+      -- a RangeValueError from the length is reported as interface error
+      let lr ← match createRangeFromLength len with
+        | .error (.data .range) => .error .iface
+        | other => other
       pure (some (len, lr))
     else pure none
   let ruleRange : Option Range ← if hasRule then (Range.parse rule).map some else pure none
